@@ -903,7 +903,7 @@ func main() {
 		checkProgram(in)
 	}
 	rng := lib.NewRNG(f.Seed)
-	n := f.Scale(1500, 40000)
+	n := f.Scale(1500, 15000)
 	for i := 0; i < n; i++ {
 		r := rng.Fork()
 		g := lib.NewGen(r, genProfile(r))
@@ -914,12 +914,12 @@ func main() {
 			}
 		}
 	}
-	n = f.Scale(1200, 25000)
+	n = f.Scale(1200, 8000)
 	for i := 0; i < n; i++ {
 		r := rng.Fork()
 		checkProgram(modProgram(r, i%3 == 0))
 	}
-	n = f.Scale(6000, 150000)
+	n = f.Scale(6000, 60000)
 	for i := 0; i < n; i++ {
 		poolCase(rng.Fork())
 	}
